@@ -37,91 +37,132 @@ EXPLANATION = (
 )
 
 
-def param_rule(f, gpath):
-    """(ok, why): in the polymorphic body of `gpath`, parameter 1 (&mut L) is used only as receiver of
-    calls of exactly one method, returning (), of a crate-private trait without associated consts/types."""
-    poly = [b for b in f.bodies if b["path"] == gpath]
-    traits = {t["path"]: t for t in f.d["traits"]}
-    okp = False
-    why = "polymorphic body not found"
-    if poly:
-        body = poly[0]["body"]
-        c = CFG({"body": body})
-        holders = set()
-        # reborrows `&mut (*_1)` and copies of the list parameter
-        frontier = {1}
-        while frontier:
-            nxt = set()
-            for b in body["blocks"]:
-                for st in b["stmts"]:
-                    if st["k"] == "assign" and not st["place"]["p"]:
-                        rv = st["rv"]
-                        src = None
-                        if rv["k"] == "use":
-                            src = rv["op"].get("c") or rv["op"].get("m")
-                        elif rv["k"] == "ref":
-                            src = rv["place"]
-                        if src is not None and src["l"] in frontier | holders and all(p == "deref" for p in src["p"]):
-                            if st["place"]["l"] not in holders and st["place"]["l"] != 1:
-                                nxt.add(st["place"]["l"])
-            holders |= frontier
-            frontier = nxt - holders
-        uses_ok = True
-        n_push = 0
-        called = set()
-        trait_paths = set()
-        bad_use = None
+TYPE_PROBES = ("core::mem::size_of", "core::mem::align_of", "core::any::type_name", "core::any::TypeId::of", "core::mem::needs_drop", "core::intrinsics::")
 
-        def mentions(x):
+
+def mentions_param(f, tid, seen=None):
+    """Does the type mention a generic type parameter?"""
+    seen = seen if seen is not None else set()
+    if tid in seen or tid is None:
+        return False
+    seen.add(tid)
+    t = f.ty(tid)
+    k = t["k"]
+    if k == "param":
+        return True
+    for key in ("to", "elem"):
+        if key in t and isinstance(t[key], int) and mentions_param(f, t[key], seen):
+            return True
+    for key in ("elems", "inputs", "upvars"):
+        for x in t.get(key) or []:
+            if isinstance(x, int) and mentions_param(f, x, seen):
+                return True
+    for a in t.get("args") or []:
+        if isinstance(a, dict) and "t" in a and mentions_param(f, a["t"], seen):
+            return True
+    if "output" in t and isinstance(t["output"], int) and mentions_param(f, t["output"], seen):
+        return True
+    return False
+
+
+def param_rule(f, gpath):
+    """(ok, why, stats). Parametricity premise: in the generic search `gpath` and in every generic crate function
+    it hands its list to, a value whose type mentions the type parameter is only moved, reborrowed, returned, or
+    passed to (a) methods of one crate-private trait that return () and take no other `&mut`, (b) other generic
+    crate functions satisfying the same rule, (c) that trait's provided methods, which no impl overrides. The
+    trait has exactly one required method, no associated types/consts; no type-probing intrinsic is applied to
+    the parameter. Then the search cannot behave differently for two implementors except through the one
+    required method."""
+    bodies = {b["path"]: b for b in f.bodies}
+    traits = {t["path"]: t for t in f.d["traits"]}
+    checked, methods, problems = set(), set(), []
+    work = [gpath]
+    while work:
+        path = work.pop()
+        if path in checked:
+            continue
+        checked.add(path)
+        pb = bodies.get(path)
+        if pb is None:
+            problems.append("polymorphic body of %s not found" % path)
+            continue
+        body = pb["body"]
+        tainted = {i for i, l in enumerate(body["locals"]) if mentions_param(f, l["ty"])}
+
+        def uses(x):
             if isinstance(x, dict):
                 if "l" in x and "p" in x and len(x) == 2:
-                    return x["l"] in holders
-                return any(mentions(v) for v in x.values())
+                    return x["l"] in tainted
+                return any(uses(v) for v in x.values())
             if isinstance(x, list):
-                return any(mentions(v) for v in x)
+                return any(uses(v) for v in x)
             return False
 
         for bi, b in enumerate(body["blocks"]):
             if b.get("cleanup"):
                 continue
             for st in b["stmts"]:
-                if st["k"] == "assign":
-                    # allowed: reborrow / copy into another holder
-                    if st["place"]["l"] in holders and not st["place"]["p"]:
-                        continue
-                    if mentions(st["rv"]) or (mentions(st["place"]) and st["place"]["l"] not in holders):
-                        uses_ok = False
-                        bad_use = "bb%d statement" % bi
+                if st["k"] == "assign" and uses(st["rv"]):
+                    if st["rv"]["k"] == "discr":
+                        continue  # which variant a wrapper (Option/Result) is, not what the list is
+                    if st["place"]["l"] not in tainted:
+                        problems.append("%s bb%d: a value of the parameter's type flows into a plain value (%s)" % (path, bi, st["rv"]["k"]))
             t = b["term"]
             if t["k"] == "call":
-                argm = [mentions(a) for a in t["args"]]
-                if any(argm):
-                    fdesc = t["f"]
-                    dec = fdesc.get("declared") if fdesc["k"] == "item" else None
-                    tr = dec["def"].rsplit("::", 1)[0] if dec else None
-                    if dec is None or tr not in traits or argm[0] is not True or any(argm[1:]):
-                        uses_ok = False
-                        bad_use = "bb%d call %s" % (bi, dec["def"] if dec else "?")
-                    else:
-                        n_push += 1
-                        called.add(dec["def"].rsplit("::", 1)[1])
-                        trait_paths.add(tr)
-            elif t["k"] in ("switch", "assert") and mentions(t):
-                uses_ok = False
-                bad_use = "bb%d %s" % (bi, t["k"])
-        why = "list parameter used outside trait-method calls at %s" % bad_use if not uses_ok else ""
-        if uses_ok and len(trait_paths) == 1:
-            tr = traits[next(iter(trait_paths))]
-            # the search may call exactly one method of the trait, and that method returns nothing;
-            # associated consts/types (which could tell the lists apart) are not allowed
-            fns = [it for it in tr["items"] if it["kind"] == "Fn" and it["name"] in called]
-            one = all(it["kind"] == "Fn" for it in tr["items"]) and len(called) == 1 and len(fns) == 1 and fns[0]["inputs"][0] == "&mut Self" and len(fns[0]["inputs"]) == 2 and fns[0]["output"] == "()"
-            private = not tr["reachable"]
-            okp = one and private and n_push >= 1
-            why = "trait %s: one method fn(&mut self, T) -> (): %s; private: %s; push sites: %d" % (tr["path"], one, private, n_push)
-        elif uses_ok:
-            why = "list used through %d traits" % len(trait_paths)
-    return okp, why
+                fd = t["f"]
+                dec = fd.get("declared") if fd["k"] == "item" else None
+                argm = [uses(a) for a in t["args"]]
+                if dec is not None and any(dec["def"].startswith(p) for p in TYPE_PROBES) and any(isinstance(a, dict) and "t" in a and mentions_param(f, a["t"]) for a in dec.get("args") or []):
+                    problems.append("%s bb%d: %s is applied to the type parameter" % (path, bi, dec["def"]))
+                if not any(argm):
+                    continue
+                if dec is None:
+                    problems.append("%s bb%d: the list is passed through a function pointer" % (path, bi))
+                    continue
+                ti = dec.get("trait_item")
+                tr = ti.rsplit("::", 1)[0] if ti else None
+                if tr in traits and dec.get("local"):
+                    methods.add(ti)
+                elif dec.get("local") and dec["def"] in bodies or dec.get("local") and dec.get("key") in {b_["key"] for b_ in f.bodies}:
+                    tgt = dec["def"] if dec["def"] in bodies else [b_["path"] for b_ in f.bodies if b_["key"] == dec.get("key")][0]
+                    work.append(tgt)
+                else:
+                    problems.append("%s bb%d: the list is handed to %s" % (path, bi, dec["def"]))
+            elif t["k"] in ("switch", "assert") and uses(t):
+                problems.append("%s bb%d: control flow depends on a value of the parameter's type" % (path, bi))
+        # provided methods reached through trait calls are generic code too
+        for m in list(methods):
+            tr = traits.get(m.rsplit("::", 1)[0])
+            it = [x for x in tr["items"] if x["name"] == m.rsplit("::", 1)[1]] if tr else []
+            if it and it[0].get("has_default") and m in bodies and m not in checked:
+                work.append(m)
+    tps = {m.rsplit("::", 1)[0] for m in methods}
+    stats = {"generic functions examined": sorted(checked), "trait methods the list is passed to": sorted(methods)}
+    if problems:
+        return False, "; ".join(problems[:3]), stats
+    if len(tps) != 1:
+        return False, "the list is used through %d traits" % len(tps), stats
+    tr = traits[next(iter(tps))]
+    if tr["reachable"]:
+        return False, "trait %s is nameable outside the crate" % tr["path"], stats
+    if not all(it["kind"] == "Fn" for it in tr["items"]):
+        return False, "trait %s has associated types or constants" % tr["path"], stats
+    required = [it for it in tr["items"] if not it.get("has_default")]
+    if len(required) != 1:
+        return False, "trait %s has %d required methods (expected exactly one: the push)" % (tr["path"], len(required)), stats
+    for m in methods:
+        it = [x for x in tr["items"] if x["name"] == m.rsplit("::", 1)[1]][0]
+        if it["output"] != "()" or any(x.startswith("&mut") and "Self" not in x for x in it["inputs"][1:]):
+            return False, "trait method %s returns %s / takes %s: information can flow from the list back to the search" % (m, it["output"], it["inputs"]), stats
+    called_provided = {m.rsplit("::", 1)[1] for m in methods} - {required[0]["name"]}
+    for im in f.d["impls"]:
+        if im.get("trait") == tr["path"]:
+            over = {x.rsplit("::", 1)[1] for x in im["items"]} & called_provided
+            if over:
+                return False, "impl %s overrides the provided method(s) %s which the search calls: the two lists may react differently" % (im["trait_ref"], sorted(over)), stats
+    stats["trait"] = tr["path"]
+    stats["required method"] = required[0]["name"]
+    return True, "trait %s: private, one required method %s%s -> (), %d provided, list only moved / passed to it or to generic helpers" % (tr["path"], required[0]["name"], tuple(required[0]["inputs"]), len(tr["items"]) - 1), stats
 
 
 def direct_buffer_readers(f, list_path, idx_buf, allowed=("new", "data")):
@@ -171,9 +212,9 @@ def check(run, tier):
             continue
         G = {e: v[0] for e, v in gs.items()}
         gpath = G[FIND_N]["path"]
-        okp, why = param_rule(f, gpath)
+        okp, why, pstats = param_rule(f, gpath)
         run.obligation(okp)
-        run.sample({"rule": "PARAM", "generic search": gpath, "verdict": why})
+        run.sample(dict({"rule": "PARAM", "generic search": gpath, "verdict": why}, **pstats))
         if not okp:
             run.finding("PARAM", "%s|%s|param" % (cfg, gpath), "the generic search can observe its result list beyond a private one-method push trait: %s" % why, G[FIND_N].get("span"))
         # ---------------- ENTRY
@@ -231,6 +272,20 @@ def check(run, tier):
             oks = ce.ok_return_blocks()
             st_ = ce.success_targets(gb[0]) if len(gb) == 1 else []
             through = len(gb) == 1 and bool(oks) and bool(st_) and all(any(ce.dominated_by(b, t) for t in st_) for b in oks)
+            if len(gb) == 1 and not oks:
+                # the search's result is returned as it is (`_0` is written by that call, or by `?` residuals, only)
+                writers = []
+                for bi_, b_ in enumerate(ce.blocks):
+                    if b_.get("cleanup"):
+                        continue
+                    for st2 in b_["stmts"]:
+                        if st2["k"] == "assign" and st2["place"]["l"] == 0:
+                            writers.append(("stmt", bi_))
+                    t2 = b_["term"]
+                    if t2["k"] == "call" and t2["dest"]["l"] == 0:
+                        r2 = (t2["f"]["resolved"] or t2["f"]["declared"]) if t2["f"]["k"] == "item" else None
+                        writers.append(("search" if bi_ == gb[0] else ("residual" if r2 is not None and r2["def"].endswith("::from_residual") else "call"), bi_))
+                through = bool(writers) and all(w[0] in ("search", "residual") for w in writers) and any(w[0] == "search" for w in writers)
             run.obligation(through)
             if not through:
                 run.finding("ENTRY", "%s|%s|ok-without-search" % (cfg, e), "%s can return Ok without the shared search having succeeded (an early return bypasses it, so count/exhaustiveness/errors differ from the other entry point)" % e, insts[e].get("span"))
@@ -255,7 +310,8 @@ def check(run, tier):
         if lt and idx_buf is not None and idx_count is not None:
             rest = [i for i in range(len(lt["variants"][0]["fields"])) if i not in (idx_buf, idx_count)]
             idx_ci = rest[0] if len(rest) == 1 else None
-        pushes = [i for i in f.instances if i["name"].startswith("<" + LIST) and i["name"].endswith("::push")]
+        req = pstats.get("required method", "push")
+        pushes = [i for i in f.instances if i["name"].startswith("<" + LIST) and i["name"].endswith("::" + req)]
         if None in (idx_buf, idx_count, idx_ci) or len(pushes) != 1:
             run.obligation(False)
             run.finding("ANCHOR-MISSING", "%s|buffer-list-shape" % cfg, "buffer list fields (buffer reference, count via count(), current index) or its push impl not identified")
@@ -312,7 +368,7 @@ def check(run, tier):
                 if not okb:
                     run.finding("PUSH", "%s|push|%s" % (cfg, box), "buffer list push, case %s: expected %s; got %s" % (box, "one write at current_index, index + 1, count + 1" if box == "in-bounds" else "no write, index unchanged, count + 1", detail), push.get("span"))
             # Vec impl
-            vp = [i for i in f.instances if i["name"].startswith("<tz::datetime::find::FoundDateTimeList as") and i["name"].endswith("::push")]
+            vp = [i for i in f.instances if i["name"].startswith("<tz::datetime::find::FoundDateTimeList as") and i["name"].endswith("::" + req)]
             if vp:
                 c = CFG(vp[0])
                 pcs = [r for _, _, r in c.calls() if r is not None and r["def"] == "alloc::vec::Vec::<T, A>::push"]
